@@ -53,8 +53,22 @@ def run_case(seed, index, props):
             except TypeError:
                 return 'TypeError'
         return True
-    target = rng.choice(['tasks', 'roots', 'children'])
-    lst = w.tasks if target == 'tasks' else (w.roots if target == 'roots' else rng.choice(ts).children)
+    target = rng.choice(['tasks', 'roots', 'children', 'links'])
+    if target == 'links':
+        # a dependency list: it may hold tasks of other trees, also ones whose id equals the id of a listed member (ids are unique per tree only)
+        x = rng.choice(ts); side = rng.choice(['predecessors', 'successors'])
+        cands = [t for t in ts if t is not x] + [Task(rng.choice(ts).id, rng.choice(['alpha', 'beta', None]), resource=rng.choice(['dev', 'qa', None])) for _ in range(2)]
+        rng.shuffle(cands)
+        for t in cands[:rng.randint(1, 4)]:
+            try: getattr(x, side).append(t)
+            except RuntimeError: pass
+        lst = getattr(x, side)
+        desc['list'] = f'{side} of task {x.id}: {[t.id for t in lst]}'
+        ids_l = [t.id for t in lst]; twice = [k for k in ids_l if ids_l.count(k) > 1]
+        if twice and rng.random() < .6:
+            filt.clear(); filt['id'] = twice[0]           # the plain id query on a list that holds that id twice
+    else:
+        lst = w.tasks if target == 'tasks' else (w.roots if target == 'roots' else rng.choice(ts).children)
     members = list(lst)
     wants = [want_fn(t) for t in members]
     if 'TypeError' in wants: return [], tags, desc, 'typeerror'
@@ -76,7 +90,15 @@ def run_case(seed, index, props):
         for t in w.tasks:
             has = getattr(t, 'flag', None) == index
             if has != any(t is x for x in want): bad('C18 bulk attribute assignment touched the wrong tasks', f'task {t.id}')
-        if target != 'tasks':
+        if target == 'links':
+            before_l = list(lst); all_before = list(w.tasks)
+            removed = lst.remove_all(**filt)
+            if len(removed) != len(want) or any(a is not b for a, b in zip(removed, want)): bad('C18 remove_all returned other tasks than the matching ones')
+            left = list(getattr(x, side))
+            keep = [t for t in before_l if not any(t is y for y in want)]
+            if len(left) != len(keep) or any(a is not b for a, b in zip(left, keep)): bad('C18 remove_all removed other tasks than the matching ones and their subtrees', 'dependency list')
+            if [id(t) for t in w.tasks] != [id(t) for t in all_before]: bad('C18 remove_all removed other tasks than the matching ones and their subtrees', 'removing links changed the hierarchy')
+        elif target != 'tasks':
             all_before = list(w.tasks)
             removed = lst.remove_all(**filt)
             if [t.id for t in removed] != [t.id for t in want]: bad('C18 remove_all returned other tasks than the matching ones')
